@@ -81,6 +81,48 @@ def insert_virtual(rng, case):
     return out
 
 
+def reused_base_graph(ctx, case, fine0, kw):
+    """a base graph OBJECT that was resolved before with a library in which [#V] is a real fragment, handed to
+    from_graph again with the library in which it is virtual: the virtual node owns no atoms, the molecule is the one
+    without virtual nodes"""
+    from cgsmiles.read_cgsmiles import read_cgsmiles
+    from cgsmiles.resolve import MoleculeResolver
+    if not case.get('all_atom', True):
+        return
+    base, rest = case['s'].split('}.', 1)
+    where = int(lib.stable_hash([case['s'], 'reuse'])[:4], 16) % 3
+    body = base[1:]
+    if where == 2 and body.endswith(tuple('0123456789')) and '|' in body:
+        where = 0
+    base_v = ['{[#V].' + body + '}', '{' + body + '.[#V]}', '{[#V].' + body + '.[#V]}'][where]
+    frags = '{' + rest.lstrip('{')
+    vcase = dict(suites.slim(case), s=base_v + '.' + frags, variant='reused-base-graph', orig=case['s'])
+    try:
+        with lib.quiet():
+            g = read_cgsmiles(base_v)
+            MoleculeResolver.from_graph(frags[:-1] + ',#V=OC}', g, **kw).resolve()
+            meta, fine = MoleculeResolver.from_graph(frags, g, **kw).resolve()
+    except Exception as err:    # noqa: BLE001
+        ctx.fail(vcase, f'a base graph resolved before (with [#V] a real fragment) is rejected when [#V] is virtual: '
+                        f'{type(err).__name__} {str(err)[:60]}')
+        return
+    ctx.count('reused-base-graph', lib.stable_hash([vcase['s']]), sample=vcase['s'])
+    if sorted(fine0.edges) != sorted(fine.edges) or list(fine0.nodes(data='element')) != list(fine.nodes(data='element')):
+        ctx.fail(vcase, 'a base graph resolved before gives a different molecule the second time')
+        return
+    owned = []
+    for k in meta.nodes:
+        gk = meta.nodes[k].get('graph')
+        if meta.nodes[k].get('fragname') == 'V':
+            if gk is not None and len(gk):
+                ctx.fail(vcase, f'virtual node {k} of a base graph resolved before is mapped to atoms {sorted(gk.nodes)[:6]}')
+                return
+        elif gk is not None:
+            owned += list(gk.nodes)
+    if sorted(owned) != sorted(fine.nodes) and not any(len(d.get('fragid', [])) > 1 for _, d in fine.nodes(data=True)):
+        ctx.fail(vcase, 'coarse-node membership of a base graph resolved before is not a partition of the atoms')
+
+
 def oracle(ctx, case, steps, ctor_err):
     if steps is None or case.get('variant'):
         return
@@ -123,6 +165,7 @@ def oracle(ctx, case, steps, ctor_err):
                 g = meta1.nodes[k].get('graph')
                 if g is not None and len(g):
                     ctx.fail(vcase, f'{kind}: virtual node {k} is mapped to atoms {sorted(g.nodes)[:6]}')
+    reused_base_graph(ctx, case, fine0, kw)
     # a fragment-less node attached by an order >= 1 edge must be rejected
     base, rest = case['s'].split('}.', 1)
     import re
@@ -278,6 +321,8 @@ def replay(payload):
             print('FAILS: resolved without error'); return 1
         except SyntaxError:
             return 0
+    if case.get('variant') == 'reused-base-graph':
+        case['s'] = case.pop('orig')
     case.pop('variant', None)
     # strip the inserted virtual nodes again? no: replay stores the variant string; re-derive from the original if present
     suites.run_resolve_case(ctx, 'replay', case, oracle=oracle, compare=False)
